@@ -15,7 +15,7 @@ exit kind, returned abstract value, final lock typestate); the rule modules
 evaluate their obligations on those.
 """
 import json
-from facts import ty_subst, ty_walk as _walk
+from facts import ty_subst, ty_walk as _walk, _subst
 
 LOOP_LIMIT = 3
 DEPTH_LIMIT = 24
@@ -212,6 +212,9 @@ class Interp:
         self.const_params = {}    # const generic name -> value (container model: `[T; N]` analysed with N = list length)
         self.acq_limit = None     # cut a path when it is about to issue more than this many blocking acquisitions
         self.frame_fn = {}        # frame id -> function (types of locals)
+        self.frame_subst = {}     # frame id -> {(param name, index): type}: generic arguments the inlined callee was called with
+        self.subst_table = [{}]   # interned substitutions carried by closure values (closure aggregate variant = index)
+        self.cur_fid = None
         self.getptrs_hook = None  # data model: get_ptrs of the abstract root lockable appends the modelled leaves
         self.model_vecs = False   # Vec::new / HashSet::new create modelled containers (semantic container rules)
         self.addrs = {}           # list id -> model address of each element (duplicate / sort rules)
@@ -246,6 +249,10 @@ class Interp:
             return None
         if p == "cell":
             if k == "adt" and t["path"].endswith("UnsafeCell"):
+                return t["args"][0]
+            return None
+        if p == "lazy":
+            if k == "adt" and t.get("args"):
                 return t["args"][0]
             return None
         if isinstance(p, str) and p.startswith("["):
@@ -387,6 +394,19 @@ class Interp:
                 loc = self.add_proj(loc, p)
             elif p.startswith("as "):
                 continue
+            elif p.startswith("[") and self.lists and (loc[0] == "V" or self._view_at(st, loc) is not None) and \
+                    (p.startswith("[c-") or ".." in p):
+                # slice patterns: `[.., last]` (index from the end) and `[first, rest @ ..]` (sub-slice)
+                vw = loc[1] if loc[0] == "V" else self._view_at(st, loc)
+                lid, lo, hi = vw[2], vw[4][0][1], vw[4][1][1]
+                if p.startswith("[c-"):
+                    loc = ("O", lid, ("[%d]" % (hi - int(p[3:-1])),))
+                else:
+                    a_, b_ = p[1:-1].split("..")
+                    nlo = lo + int(a_)
+                    nhi = hi - int(b_[1:]) if b_.startswith("-") else lo + int(b_)
+                    import listmodel
+                    loc = ("V", listmodel.view(lid, nlo, max(nlo, nhi)), ())
             elif p.startswith("[") and loc[0] != "V" and self.lists and self._view_at(st, loc) is not None:
                 # indexing a place that holds a modelled list: continue inside the list
                 loc = ("V", self._view_at(st, loc), ())
@@ -418,8 +438,11 @@ class Interp:
 
     def _view_at(self, st, loc):
         v = st.heap.get(loc)
-        if v is None and loc[0] == "L" and not loc[3]:
-            v = st.mem.get((loc[1], loc[2]))
+        if v is None and loc[0] == "L":
+            try:
+                v = self.load(st, loc)
+            except Undecided:
+                v = None
         if v is not None and v[0] == "agg" and v[1] == "slice" and v[2] in self.lists:
             return v
         return None
@@ -566,7 +589,7 @@ class Interp:
             if a == "array":
                 return Agg("array", "", 0, ops)
             if a == "closure":
-                return Agg("closure", rv["id"], 0, ops)
+                return Agg("closure", rv["id"], self.intern_subst(self.frame_subst.get(fid) or {}), ops)
             return Agg("other", a, 0, ops)
         if k == "repeat":
             elem = self.eval_operand(st, fid, rv["op"])
@@ -733,7 +756,7 @@ class Interp:
             # a borrowed guard still witnesses that its lock is held
             self.seed_arg(st, self.add_proj(loc, "*"), t["ty"], depth + 1)
 
-    def run_fn(self, fn, args, st, depth):
+    def run_fn(self, fn, args, st, depth, subst=None):
         if depth > DEPTH_LIMIT:
             raise Undecided("inlining depth limit in %s" % fn["path"])
         m = fn.get("mir")
@@ -741,6 +764,7 @@ class Interp:
             raise Undecided("no MIR for %s" % fn["path"])
         fid = st.fresh("f")
         self.frame_fn[fid] = fn
+        self.frame_subst[fid] = subst or {}
         if len(args) != m["arg_count"]:
             raise Undecided("arity mismatch calling %s: %d vs %d" % (fn["path"], len(args), m["arg_count"]))
         for i, a in enumerate(args):
@@ -1026,6 +1050,7 @@ class Interp:
         if not t["dest"]["p"]:
             dest_ty = fn["mir"]["locals"][t["dest"]["l"]]["ty"]
         may_unwind = t.get("unwind") != "unreachable"
+        self.cur_fid = fid
         outs = self.call(st, fn, ce, args, t.get("line"), depth, dest_ty, may_unwind)
         res = []
         for kind, val, s2 in outs:
@@ -1096,7 +1121,8 @@ class Interp:
             else:
                 selfv = inner
             outs = []
-            for kind, val, s2, note in self.run_fn(cfn, [selfv] + list(cargs), st, depth + 1):
+            csub = self.subst_table[inner[3]] if isinstance(inner[3], int) and inner[3] < len(self.subst_table) else None
+            for kind, val, s2, note in self.run_fn(cfn, [selfv] + list(cargs), st, depth + 1, csub):
                 if kind in ("ret", "unwind"):
                     outs.append((kind, val, s2))
                 elif kind == "cut":
@@ -1121,6 +1147,29 @@ class Interp:
         r = self.fresh_op(st, "user", dest_ty, tag=("user", ev["i"]))
         ev["result"] = r[1]
         return self.outcomes(st, r, may_unwind, "user closure", fn, line)
+
+    def intern_subst(self, sub):
+        if not sub:
+            return 0
+        for i, x in enumerate(self.subst_table):
+            if x == sub:
+                return i
+        self.subst_table.append(dict(sub))
+        return len(self.subst_table) - 1
+
+    def callee_subst(self, lfn, ce, tid):
+        """generic arguments of a direct call to a crate-local generic function, as a substitution for its body
+        (so that `A::acquire(..)` inside `ordered_acquire::<A>` resolves when it is inlined into `ordered_write`)"""
+        if lfn.get("id") != ce.get("id") or not ce.get("args"):
+            return None
+        gens = lfn.get("generics") or []
+        sub = {}
+        for g in gens:
+            if g.get("kind") == "type" and g["index"] < len(ce["args"]):
+                a = ce["args"][g["index"]]
+                if a.get("k") not in ("region", "const") and not (a.get("k") == "param" and a.get("name") == g["name"]):
+                    sub[(g["name"], g["index"])] = a
+        return sub or None
 
     def resolve_local_impl(self, trait, name, targs):
         """The crate-local impl method selected by a trait-method path whose Self type (and trait arguments) name ADTs."""
@@ -1172,9 +1221,9 @@ class Interp:
             return [self.project(st, tup, i, None) for i in range(n)]
         raise Undecided("cannot untuple %r" % (tup,))
 
-    def inline(self, st, lfn, args, depth):
+    def inline(self, st, lfn, args, depth, subst=None):
         outs = []
-        for kind, val, s2, note in self.run_fn(lfn, args, st, depth + 1):
+        for kind, val, s2, note in self.run_fn(lfn, args, st, depth + 1, subst):
             if kind in ("ret", "unwind"):
                 outs.append((kind, val, s2))
             elif kind == "cut":
@@ -1185,6 +1234,9 @@ class Interp:
         if ce["k"] != "fndef":
             self.emit(st, {"k": "CALL", "def": "<indirect>", "args": args}, fn, line)
             return self.outcomes(st, self.fresh_op(st, "r", dest_ty), may_unwind, "indirect call", fn, line)
+        S = self.frame_subst.get(self.cur_fid) or {}
+        if S and ce.get("args"):
+            ce = dict(ce, args=[a if a.get("k") in ("region", "const") else _subst(a, S) for a in ce["args"]])
         name = ce["name"]
         d = ce["def"]
         r = ce.get("resolved") if isinstance(ce.get("resolved"), dict) else None
@@ -1196,7 +1248,8 @@ class Interp:
             lfn = None
         if r and r["kind"] not in ("Item", "ClosureOnceShim"):
             lfn = None if r["kind"] == "Virtual" else lfn
-        if lfn is None and r is None and trait and not trait.startswith(("lockable::", "lock_api::")) and trait not in FN_TRAITS_:
+        if lfn is None and r is None and trait and not trait.startswith("lock_api::") and trait not in FN_TRAITS_ and \
+                trait not in ("lockable::RawLock", "lockable::Lockable", "lockable::Sharable"):
             cand = self.resolve_local_impl(trait, name, [a for a in ce.get("args", []) if isinstance(a, dict) and a.get("k") not in ("region", "const")])
             if cand is not None:
                 lfn, tdef, tid = cand, cand["path"], cand["id"]
@@ -1249,7 +1302,7 @@ class Interp:
                 if out is not None:
                     return out
         if lfn is not None:
-            return self.inline(st, lfn, args, depth)
+            return self.inline(st, lfn, args, depth, self.callee_subst(lfn, ce, tid))
         # unknown foreign function
         ev = self.emit(st, {"k": "CALL", "def": tdef, "base": d, "args": args}, fn, line)
         rv = self.fresh_op(st, "r", dest_ty, tag=("call", tdef, ev["i"]))
@@ -1514,6 +1567,26 @@ def m_unwrap(ok_variant):
     return f
 
 
+def m_opt_filter(I, st, fn, ce, args, line, depth, dest_ty, may_unwind):
+    out = []
+    for k, payload, s2 in I.variants_of(st, args[0]):
+        if k == 0:
+            out += _drop_then(I, s2, args[1], fn, line, depth, _opt(0, []))
+            continue
+        tf = s2.fresh("t")
+        s2.mem[(tf, 0)] = payload
+        for kind, val, s3 in I.call_value(s2, args[1], [Ref(("L", tf, 0, ()))], fn, line, depth, None, may_unwind):
+            if kind != "ret":
+                out.append((kind, val, s3))
+                continue
+            for b, s4 in I.fork_bool(s3, val):
+                if b:
+                    out.append(("ret", _opt(1, [payload]), s4))
+                else:
+                    out += _drop_then(I, s4, payload, fn, line, depth, _opt(0, []))
+    return out
+
+
 def m_manually_drop_new(I, st, fn, ce, args, line, depth, dest_ty, may_unwind):
     # the wrapped value will never be dropped implicitly: for ownership purposes this is mem::forget that keeps the value readable
     I.emit(st, {"k": "FORGET", "val": args[0], "via": "ManuallyDrop::new"}, fn, line)
@@ -1583,6 +1656,19 @@ def m_deref_field0(I, st, fn, ce, args, line, depth, dest_ty, may_unwind):
     return [("ret", Ref(I.add_proj(loc, 0)), st)]
 
 
+def m_lazy_deref(I, st, fn, ce, args, line, depth, dest_ty, may_unwind):
+    """LazyCell / LazyLock / OnceCell-style deref: always the same place inside the cell (the initialiser is not modelled)"""
+    loc = _ptr_target(I, st, args[0])
+    if loc is None:
+        return None
+    nl = I.add_proj(loc, "lazy")
+    oid = loc_s(nl)
+    if oid not in I.optype and dest_ty is not None and dest_ty.get("k") == "ref":
+        I.oploc[oid] = nl
+        I.optype[oid] = dest_ty["ty"]
+    return [("ret", Ref(nl), st)]
+
+
 def m_local_key_with(I, st, fn, ce, args, line, depth, dest_ty, may_unwind):
     ev = I.emit(st, {"k": "TLS_WITH", "key": args[0]}, fn, line)
     cell = I.fresh_op(st, "tls")
@@ -1630,6 +1716,8 @@ def m_stdcell_get(I, st, fn, ce, args, line, depth, dest_ty, may_unwind):
     v = I.load(st, I.add_proj(loc, 0))
     if v[0] in ("uninit", "moved"):
         v = I.fresh_op(st, "cellval", dest_ty)
+    if loc[0] == "O":
+        I.emit(st, {"k": "CELL_GET", "recv": loc_s(loc), "val": v}, fn, line)
     return [("ret", v, st)]
 
 
@@ -1715,6 +1803,9 @@ MODELS = {
     "<std::vec::Vec<T, A> as std::ops::DerefMut>::deref_mut": m_identity,
     "<std::panic::AssertUnwindSafe<T> as std::ops::Deref>::deref": m_deref_field0,
     "std::thread::LocalKey::<T>::with": m_local_key_with,
+    "<std::cell::LazyCell<T, F> as std::ops::Deref>::deref": m_lazy_deref,
+    "std::cell::LazyCell::<T, F>::force": m_lazy_deref,
+    "<std::sync::LazyLock<T, F> as std::ops::Deref>::deref": m_lazy_deref,
     "<std::result::Result<T, E> as std::ops::Try>::branch": m_try_branch,
     "<std::result::Result<T, F> as std::ops::FromResidual<std::result::Result<std::convert::Infallible, E>>>::from_residual": m_from_residual,
     "std::cell::Cell::<T>::new": m_stdcell_new,
@@ -1733,6 +1824,7 @@ MODELS = {
     "std::option::Option::<T>::map": m_map_variant(1, True),
     "std::result::Result::<T, E>::map": m_map_variant(0, False),
     "std::result::Result::<T, E>::map_err": m_map_variant(1, False),
+    "std::option::Option::<T>::filter": m_opt_filter,
     "std::option::Option::<T>::ok_or": m_ok_or(False),
     "std::option::Option::<T>::ok_or_else": m_ok_or(True),
     "std::result::Result::<T, E>::ok": m_res_to_opt(0),
